@@ -139,16 +139,6 @@ func c07LargeConfigs() [][]string {
 	for i, j := 0, len(out)-1; i < j; i, j = i+1, j-1 {
 		out[i], out[j] = out[j], out[i]
 	}
-	// and among them the ones with the most NextSequenceNumber calls first (a lost or doubled
-	// value needs callers of that operation)
-	nCount := func(cfg []string) int {
-		n := 0
-		for _, l := range cfg {
-			n += strings.Count(l, "N")
-		}
-		return n
-	}
-	sort.SliceStable(out, func(a, b int) bool { return nCount(out[a]) > nCount(out[b]) })
 	c07LargeCache = out
 	return out
 }
